@@ -17,7 +17,14 @@ def run(seed, tier="quick"):
     subprocess.run(["git", "-C", "/repo", "worktree", "remove", "--force", wt], capture_output=True)
     subprocess.run(["git", "-C", "/repo", "worktree", "add", "-q", "--detach", wt, "HEAD"], check=True)
     try:
-        subprocess.run(["git", "-C", wt, "apply", os.path.join(d, "patch.diff")], check=True)
+        if meta.get("status") == "retired":
+            print(seed, "retired:", meta.get("retired_reason", "")[:120])
+            return {}
+        ap = subprocess.run(["git", "-C", wt, "apply", os.path.join(d, "patch.diff")], capture_output=True, text=True)
+        if ap.returncode != 0:
+            print(seed, "PATCH DOES NOT APPLY on this /repo HEAD:", ap.stderr.strip().splitlines()[:1])
+            json.dump({"patch_applies": False}, open(os.path.join(d, "last_run.json"), "w"), indent=1)
+            return {}
         out = {}
         for pid in meta.get("check_with", [meta["property"]]):
             env = dict(os.environ, REPO=wt, VERIF_SEED=os.environ.get("VERIF_SEED", "1"), VERIF_EVIDENCE_DIR="/tmp/seed_evidence")
